@@ -47,13 +47,14 @@ theorem slice_push {cmp} (hs : SWO cmp) (s : List Int) (x : Int) (h : Heap cmp s
     simpa [Heap, this] using hheap
   · exact hperm.trans (List.perm_append_comm (l₁ := s) (l₂ := [x]))
 
-/-- `Pop` on a heap with at least two elements. -/
-theorem slice_pop_big {cmp} (hs : SWO cmp) (s : List Int) (h : Heap cmp s) (hlen : 2 ≤ s.length) :
-    ∃ s', Slice.pop cmp s = some (s', nthN s 0, true) ∧ Heap cmp s' ∧ (nthN s 0 :: s').Perm s := by
-  obtain ⟨m, hm⟩ : ∃ m, s.length = m + 2 := ⟨s.length - 2, by omega⟩
-  have e0 : ((s.length : Nat) : Int) ≠ 0 := by omega
-  have e1 : ((s.length : Nat) : Int) ≠ 1 := by omega
-  have e2 : ((s.length : Nat) : Int) - 1 = ((m + 1 : Nat) : Int) := by omega
+/-- The run of `Pop` on a heap with `m + 2` elements, call by call: `swap(0, n)`, `down(0, n)`;
+the result `s2` keeps the length, holds the old root at position `n = m + 1`, its first `n`
+positions are a heap and, with the root, a permutation of `s`. -/
+theorem slice_pop_run {cmp} (hs : SWO cmp) (s : List Int) (h : Heap cmp s) (m : Nat) (hm : s.length = m + 2) :
+    ∃ s2 b, swapL s 0 ((m + 1 : Nat) : Int) = some (swapN s 0 (m + 1)) ∧
+      downB (sliceOps cmp) (swapN s 0 (m + 1)) 0 ((m + 1 : Nat) : Int) = some (s2, b) ∧
+      s2.length = m + 2 ∧ nthN s2 (m + 1) = nthN s 0 ∧ Heap cmp (s2.take (m + 1)) ∧
+      (nthN s 0 :: s2.take (m + 1)).Perm s := by
   have hsw : swapL s 0 ((m + 1 : Nat) : Int) = some (swapN s 0 (m + 1)) := by
     have := swapL_cast s 0 (m + 1) (by omega) (by omega)
     simpa using this
@@ -73,18 +74,28 @@ theorem slice_pop_big {cmp} (hs : SWO cmp) (s : List Int) (h : Heap cmp s) (hlen
   have hx : nthN s2 (m + 1) = nthN s 0 := by
     rw [htail (m + 1) (Nat.le_refl _), nthN_swapN s 0 (m + 1) (by omega) (by omega)]
     simp [swapF]
-  refine ⟨s2.take (m + 1), ?_, heap_take (by omega) hpost, ?_⟩
-  · have hrun' : downB (sliceOps cmp) (swapN s 0 (m + 1)) 0 ((m + 1 : Nat) : Int) = some (s2, decide (0 < i')) := by
-      simpa using hrun
-    simp only [Slice.pop, e0, e1, if_false, e2, hsw, hrun', nth_cast s2 (m + 1) (by omega), hx]
-    rw [Int.toNat_natCast]
-  · have h1 := eq_take_append_last s2 (m + 1) hlen2'
-    rw [hx] at h1
-    have : (nthN s 0 :: s2.take (m + 1)).Perm s2 := by
-      have p : (nthN s 0 :: s2.take (m + 1)).Perm (s2.take (m + 1) ++ [nthN s 0]) :=
-        List.perm_append_comm (l₁ := [nthN s 0]) (l₂ := s2.take (m + 1))
-      exact p.trans (by rw [← h1])
-    exact this.trans (hperm2.trans (swapN_perm s 0 (m + 1) (by omega) (by omega)))
+  have hrun' : downB (sliceOps cmp) (swapN s 0 (m + 1)) 0 ((m + 1 : Nat) : Int) = some (s2, decide (0 < i')) := by
+    simpa using hrun
+  refine ⟨s2, _, hsw, hrun', hlen2', hx, heap_take (by omega) hpost, ?_⟩
+  have h1 := eq_take_append_last s2 (m + 1) hlen2'
+  rw [hx] at h1
+  have : (nthN s 0 :: s2.take (m + 1)).Perm s2 := by
+    have p : (nthN s 0 :: s2.take (m + 1)).Perm (s2.take (m + 1) ++ [nthN s 0]) :=
+      List.perm_append_comm (l₁ := [nthN s 0]) (l₂ := s2.take (m + 1))
+    exact p.trans (by rw [← h1])
+  exact this.trans (hperm2.trans (swapN_perm s 0 (m + 1) (by omega) (by omega)))
+
+/-- `Pop` on a heap with at least two elements. -/
+theorem slice_pop_big {cmp} (hs : SWO cmp) (s : List Int) (h : Heap cmp s) (hlen : 2 ≤ s.length) :
+    ∃ s', Slice.pop cmp s = some (s', nthN s 0, true) ∧ Heap cmp s' ∧ (nthN s 0 :: s').Perm s := by
+  obtain ⟨m, hm⟩ : ∃ m, s.length = m + 2 := ⟨s.length - 2, by omega⟩
+  have e0 : ((s.length : Nat) : Int) ≠ 0 := by omega
+  have e1 : ((s.length : Nat) : Int) ≠ 1 := by omega
+  have e2 : ((s.length : Nat) : Int) - 1 = ((m + 1 : Nat) : Int) := by omega
+  obtain ⟨s2, b, hsw, hrun, hlen2, hx, hheap, hperm⟩ := slice_pop_run hs s h m hm
+  refine ⟨s2.take (m + 1), ?_, hheap, hperm⟩
+  simp only [Slice.pop, e0, e1, if_false, e2, hsw, hrun, nth_cast s2 (m + 1) (by omega), hx]
+  rw [Int.toNat_natCast]
 
 
 theorem heap_nil (cmp : Int → Int → Bool) : Heap cmp [] := by
@@ -125,6 +136,36 @@ theorem slice_remove_out (cmp : Int → Int → Bool) (s : List Int) (i : Int)
     (hi : i < 0 ∨ (s.length : Int) ≤ i) : Slice.remove cmp s i = some (s, 0, false) := by
   have : (i < 0 ∨ i ≥ (s.length : Int)) := by omega
   simp [Slice.remove, this]
+
+/-- The run of `Remove(i)` for `i` below the last position `n`, call by call: `swap(i, n)`,
+`fix(i, n)`; the result keeps the length, holds the victim at position `n`, its first `n`
+positions are a heap and, with the victim, a permutation of `s`. -/
+theorem slice_remove_run {cmp} (hs : SWO cmp) (s : List Int) (i n : Nat) (h : Heap cmp s)
+    (hn : s.length = n + 1) (hin : i < n) :
+    ∃ s2, swapL s (i : Int) (n : Int) = some (swapN s i n) ∧
+      fix (sliceOps cmp) (swapN s i n) (i : Int) (n : Int) = some s2 ∧
+      s2.length = n + 1 ∧ nthN s2 n = nthN s i ∧ Heap cmp (s2.take n) ∧
+      (nthN s i :: s2.take n).Perm s := by
+  have hi : i < s.length := by omega
+  have hsw := swapL_cast s i n hi (by omega)
+  have hsame : ∀ k, k < n → k ≠ i → nthN (swapN s i n) k = nthN s k := by
+    intro k hk hki
+    rw [nthN_swapN s i n hi (by omega)]
+    have : k ≠ n := by omega
+    simp [swapF, *]
+  have h0 : HeapOn cmp (nthN s) 0 n := fun c hc hc1 hlo => h c (by omega) hc1 hlo
+  obtain ⟨s2, hrun, hlen2, hperm2, htail, hheap⟩ :=
+    fix_spec hs (swapN s i n) i n (nthN s) (by simp; omega) hin h0 hsame
+  have hlen2' : s2.length = n + 1 := by rw [hlen2]; simp [hn]
+  have hx : nthN s2 n = nthN s i := by
+    rw [htail n (Nat.le_refl _), nthN_swapN s i n hi (by omega)]
+    simp [swapF]
+  refine ⟨s2, hsw, hrun, hlen2', hx, heap_take (by omega) hheap, ?_⟩
+  have h1 := eq_take_append_last s2 n hlen2'
+  rw [hx] at h1
+  have p : (nthN s i :: s2.take n).Perm (s2.take n ++ [nthN s i]) :=
+    List.perm_append_comm (l₁ := [nthN s i]) (l₂ := s2.take n)
+  exact (p.trans (by rw [← h1])).trans (hperm2.trans (swapN_perm s i n hi (by omega)))
 
 /-- `Remove(i)` in range: removes exactly the element at `i`, keeps the heap order. -/
 theorem slice_remove_in {cmp} (hs : SWO cmp) (s : List Int) (i : Nat) (h : Heap cmp s) (hi : i < s.length) :
